@@ -56,6 +56,12 @@ CLAIMS.update({
                 design="7/C15", technique="Coq proof (finite-map lemmas on tables; stored-data invariant over all inference operations; validation model) + exact differential correspondence incl. value-encoding scenarios",
                 note=NOTE_TB + " Quantifier add_data is covered by the quantifier check, not by these theorems."),
 })
+
+CLAIMS.update({
+    "C16": dict(text="Theorems C16_prop_history_free (propositional: reset_bounds restores exactly the data state and the engine has no other state, so inference after a reset equals inference on a fresh model whatever ran before), C16_fol_reset_reads_fresh (first-order: after ANY inference history reset_bounds leaves every (formula, grounding) reading exactly what the fresh data state reads; queries are pure), and C16_history_free_full_refuted: the unrestricted first-order statement is FALSE of the faithful model on data that reaches a contradiction (per-grounding arresting depends on pre-grown rows) - recorded as a known finding, replayed on the implementation on every run. Premature convergence on row creation (D10) was repaired (fix f489d34).",
+                design="7/C16", technique="Coq proof (reset lemmas over the stored-data invariant) + refutation witness by vm_compute + exact differential correspondence (run 1 / reset / run 2 / reset / run 3)",
+                note=NOTE_TB + " Partial: for first-order KBs the theorem covers the state after reset (read-equivalence), not the congruence of a whole second run; a run-2 difference without any contradiction is reported as a violation, one with a contradiction is the recorded known finding."),
+})
 NA_REASON = "check not built yet in this round (planned: see DESIGN.md section 7); not claimed"
 checks, na = [], []
 for p in props:
@@ -80,7 +86,7 @@ m = {
     "setup_cmd": "bin/setup",
     "hooks": {"guard": "LNN_VERIF", "enable": "no hooks: the harness imports lnn from /repo's working tree (PYTHONPATH=/repo) and only reads public attributes",
               "baseline_off_cmd": "cd /repo && /venv/bin/python -m pytest -q -p no:cacheprovider --timeout=900 -n 12",
-              "source_commits": ["6592514", "3aabc63", "5319eb9", "c4a5170", "993404a", "4270eca"], "add_only": True},
+              "source_commits": ["6592514", "3aabc63", "5319eb9", "c4a5170", "993404a", "4270eca", "f489d34"], "add_only": True},
     "engines": [{"name": "coq-model", "path": "/verif/coq", "serves_properties": sorted(CLAIMS),
                  "kind_free_text": "hand-written executable Gallina model of LNN over Q + theorems per property (Coq 8.16.1), tied to /repo by generated tables and exact differential correspondence (model extracted to OCaml)"}],
     "checks": checks,
